@@ -94,6 +94,10 @@ func (r *run) emit(op string, args []string, obs string) int {
 	}
 	r.cases.WriteByte('\n')
 	fmt.Fprintf(r.impl, "%d\t%s\n", id, obs)
+	if childMode {
+		r.cases.Flush()
+		r.impl.Flush()
+	}
 	r.stats["op:"+op]++
 	return id
 }
@@ -110,6 +114,13 @@ func (r *run) sample(m map[string]any) {
 
 // reject records a case the implementation-level oracle refuses.
 func (r *run) reject(id int, what string, detail map[string]any) {
+	if childMode {
+		f, err := os.OpenFile(filepath.Join(r.outdir, "rejects.tsv"), os.O_APPEND|os.O_CREATE|os.O_WRONLY, 0o644)
+		if err == nil {
+			fmt.Fprintf(f, "%d\t%s\n", id, what)
+			f.Close()
+		}
+	}
 	if len(r.oracleFail) >= 200 && !strings.HasPrefix(what, "KF:") {
 		r.stats["oracle_reject_dropped"]++
 		return
